@@ -149,7 +149,7 @@ func history(r *ev.Run, rng *rand.Rand, store string, sample bool) {
 	for i := range slots {
 		n := 2 + rng.Intn(2)
 		if rng.Intn(10) == 0 {
-			n = []int{11, 12, 25, 101}[rng.Intn(4)] // key names depend on the participant count
+			n = []int{9, 10, 11, 12, 25, 100, 101}[rng.Intn(7)] // key names depend on the participant count (powers of ten are the edges)
 		}
 		w := mexplore.NewWellFormedWorld(rng, n, rng.Intn(n), gen.AppKind(rng.Intn(3)), 1+rng.Intn(2))
 		s := &chanSlot{name: fmt.Sprintf("ch%d", i), w: w}
